@@ -85,6 +85,11 @@ struct DBusPendingCall
    * TRUE if we have added the timeout. Protected by the connection lock.
    */
   unsigned int timeout_added : 1;
+  /**
+   * TRUE if dbus_pending_call_cancel() was called before the call
+   * completed. Protected by the connection lock.
+   */
+  unsigned int cancelled : 1;
 };
 
 static void
@@ -507,6 +512,32 @@ dbus_bool_t
 _dbus_pending_call_get_completed_unlocked (DBusPendingCall    *pending)
 {
   return pending->completed;
+}
+
+/**
+ * Remembers that the pending call was cancelled, unless it has already
+ * completed (or is being completed). Assumes connection lock is held.
+ *
+ * @param pending the pending call
+ */
+void
+_dbus_pending_call_set_cancelled_unlocked (DBusPendingCall    *pending)
+{
+  if (!pending->completed)
+    pending->cancelled = TRUE;
+}
+
+/**
+ * Checks whether the pending call was cancelled before it completed.
+ * Assumes connection lock is held.
+ *
+ * @param pending the pending call
+ * @returns #TRUE if the call was cancelled
+ */
+dbus_bool_t
+_dbus_pending_call_get_cancelled_unlocked (DBusPendingCall    *pending)
+{
+  return pending->cancelled;
 }
 
 static DBusDataSlotAllocator slot_allocator =
